@@ -91,6 +91,9 @@ class Executor:
         raise Unsupported("truthiness via __len__")
       else: yield st, z3.BoolVal(True)
     elif isinstance(v,(Tup,)): yield st, z3.BoolVal(len(v.items)>0)
+    elif isinstance(v,Opq) and z3.is_expr(v.t) and z3.is_app(v.t) and v.t.decl().name().startswith('attr_'):
+      from . import symcoll
+      yield st, z3.Function('opq_truthy',symcoll.Obj,z3.BoolSort())(v.t)       # the (unknown, fixed) truth value of an opaque attribute
     elif isinstance(v,(Cls,Fn,Other,SliceV,Opq)): yield st, z3.BoolVal(True)
     else: raise Unsupported(f"truthiness of {v!r}")
 
@@ -474,6 +477,7 @@ class Executor:
       yield from go(left,0,st0)
 
   def compare(s,op,a,b,st):
+    s._cur_st=st
     if op in (ast.Is,ast.IsNot):
       same=s.identical(a,b)
       if same is None: raise Unsupported(f"is-comparison of {a!r} and {b!r}")
@@ -537,6 +541,9 @@ class Executor:
       if isinstance(x,NoneV) and isinstance(y,Opq) and z3.is_expr(y.t) and str(y.t.sort())=='Obj':
         from . import symcoll
         return y.t==symcoll.Obj.none          # an element of a symbolic collection may be None
+    for x,y in ((a,b),(b,a)):
+      if isinstance(x,Opq) and isinstance(y,Ref) and z3.is_expr(x.t) and str(x.t.sort())=='Obj' and getattr(s,'_cur_st',None) is not None and (y.id,'__ident__') in s._cur_st.heap:
+        return x.t==s._cur_st.heap[(y.id,'__ident__')]
     if isinstance(a,NoneV) or isinstance(b,NoneV): return z3.BoolVal(isinstance(a,NoneV) and isinstance(b,NoneV))
     if isinstance(a,Ref) and isinstance(b,Ref): return z3.BoolVal(a.id==b.id)
     if isinstance(a,Cls) and isinstance(b,Cls): return z3.BoolVal(a.name==b.name)
@@ -686,6 +693,14 @@ class Executor:
       if h is not None: yield from h.getitem(s,o,idx,st); return
       if s.reg.find_method(o.cls,'__getitem__') is not None:
         yield from s.call_method(o,'__getitem__',[idx],st); return
+    if type(o).__name__=='DictSlot' and is_intlike(idx) and z3.is_int_value(z3.simplify(as_int(idx))) and z3.simplify(as_int(idx)).as_long() in(0,-1):
+      from . import symcoll
+      arr=symcoll.slot_arr(o,st)
+      for st1,empty in s.branch(st,arr==symcoll.EMPTY):
+        if empty: yield st1,Exc('IndexError','list index out of range'); continue
+        e_=z3.Const(f"item!{st1.nextid[0]}",symcoll.Obj); st1.nextid[0]+=1
+        st2=st1.fork(z3.Select(arr,e_)); yield st2,symcoll.from_obj(e_,o.elem,st2)
+      return
     if isinstance(o,Opq) and z3.is_expr(o.t) and str(o.t.sort())=='Obj' and o.kind!='any' and getattr(getattr(s,'contract',None),'opaque_attrs',False):
       from . import symcoll
       yield st,Opq(z3.Function('opq_item',symcoll.Obj,symcoll.Obj,symcoll.Obj)(o.t,symcoll.to_obj(idx,st)),'obj'); return       # pure function (assumption)
@@ -1210,6 +1225,13 @@ class Executor:
       elif isinstance(v,I): st.env[nm]=I(st.fresh_int(nm))
       elif isinstance(v,Opq) and z3.is_expr(v.t):      # an opaque object reference: any object of that kind
         st.env[nm]=Opq(z3.Const(f"{nm}@loop!{st.nextid[0]}",v.t.sort()),v.kind); st.nextid[0]+=1
+      elif isinstance(v,Ref) and v.cls=='dict' and (v.id,'dom') in st.heap:
+        from . import symcoll
+        r=st.alloc('dict')
+        for k_ in ('key','vt','default'): st.heap[(r.id,k_)]=st.heap.get((v.id,k_))
+        st.heap[(r.id,'dom')]=z3.Const(f"{nm}.dom@loop!{st.nextid[0]}",symcoll.SetSort)
+        st.heap[(r.id,'val')]=z3.Const(f"{nm}.val@loop!{st.nextid[0]}",st.heap[(v.id,'val')].sort()); st.nextid[0]+=1
+        st.env[nm]=r
       elif isinstance(v,Ref) and v.cls in('setlist',) and (v.id,'arr') in st.heap:
         # a local re-bound to a fresh abstracted list in the body: any such list
         from . import symcoll
@@ -1522,6 +1544,11 @@ def _bi_len(s,f,args,kw,st):
     h=s.reg.coll_handler(v,st)
     if h is not None: yield from h.call(s,v,'__len__',[],{},st); return
   if isinstance(v,S) and v.py is not None: yield st,I(len(v.py)); return
+  if type(v).__name__=='DictSlot':
+    from . import symcoll
+    arr=symcoll.slot_arr(v,st); st2=st.fork()
+    for f_ in symcoll.card_facts(arr): st2.pc.append(f_)
+    yield st2,I(symcoll.CARD(arr)); return
   raise Unsupported(f"len({v!r})")
 
 def _bi_range(s,f,args,kw,st):
@@ -1614,7 +1641,8 @@ def _bi_tuple(s,args,kw,st):
 
 def _bi_defaultdict(s,args,kw,st):
   from . import symcoll
-  if len(args)!=1 or not (isinstance(args[0],Cls) and args[0].name=='set'): raise Unsupported("defaultdict with a factory other than set")
+  if len(args)!=1 or not (isinstance(args[0],Cls) and args[0].name in('set','list')): raise Unsupported("defaultdict with a factory other than set / list")
+  # defaultdict(list): the lists are abstracted by their element sets; append / extend carry duplicate-freeness obligations
   st2=st.fork(); r=st2.alloc('dict'); st2.heap[(r.id,'dom')]=symcoll.EMPTY; st2.heap[(r.id,'val')]=z3.K(symcoll.Obj,symcoll.EMPTY)
   st2.heap[(r.id,'key')]=symcoll.ObjK(); st2.heap[(r.id,'vt')]=symcoll.SetOf(symcoll.ObjK()); st2.heap[(r.id,'default')]='set'
   yield st2,r
